@@ -190,6 +190,7 @@ def compare(prop, repo, gobkgen, env, pinfile):
         touches.append("field")
     if any(n.startswith("bec.KoblitzCurve.") for n in cur_reach):
         touches.append("curve")
+    cov["_reach"] = sorted(n for n in cur_reach if ":" not in n)
     return bad, cov, touches
 
 
